@@ -4,6 +4,7 @@ import (
 	"fmt"
 	"net"
 	"regexp"
+	"strings"
 	"sync"
 	"unsafe"
 
@@ -389,8 +390,15 @@ func c16Sign(w *core.W, j int) {
 		var verr error
 		vs := dns.Copy(sig).(*dns.RRSIG)
 		vs.Hdr.Name = set[0].Header().Name // in a response the RRSIG carries the (expanded) owner of the RRset
+		if si == 0 && j%2 == 1 {
+			vs.SignerName = strings.TrimSuffix(vs.SignerName, ".") // as a program may have written it
+		}
+		sigSnap := graph.Clone(vs)
 		if w.Guard("RRSIG.Verify", wit, func() { verr = vs.Verify(k.Key, set) }) {
 			return
+		}
+		if d := bridge.Diff(sigSnap, vs); d != "" {
+			w.Violation("C16/read-only-op-mutates/Verify/rrsig/"+diffField(d), "Verify changed the RRSIG it was called on at "+d, wit)
 		}
 		if verr != nil {
 			w.Count("verify_errors", 1)
